@@ -60,7 +60,7 @@ Ignores(kind) ==
 \* result = [ret, ncalls (Write calls performed), accepted (calls fully accepted)]
 WriteResult(kind, f, fate) ==
   LET ws  == Writes(kind, f)
-      hit == fate.how # "never" /\ fate.at <= Len(ws)
+      hit == fate.how # "never" /\ fate.at <= Len(ws)        \* ("fail-once": only that call is refused, later ones succeed again)
   IN IF ~hit THEN [ret |-> "nil", ncalls |-> Len(ws), refused |-> FALSE]
      ELSE IF Ignores(kind) THEN [ret |-> "nil", ncalls |-> Len(ws), refused |-> TRUE]
      ELSE [ret |-> "err", ncalls |-> fate.at, refused |-> TRUE]
